@@ -1028,3 +1028,21 @@ func rangeWithin(t *Term, lo, hi *big.Int) bool {
 	l, h := termRange(t)
 	return l != nil && h != nil && l.Cmp(lo) >= 0 && h.Cmp(hi) <= 0
 }
+
+
+func mkFromCode(i *Term) *Term {
+	if i.IsConst() {
+		if i.I.IsInt64() && i.Int64() >= 0 && i.Int64() <= 255 {
+			return mkStr(string([]byte{byte(i.Int64())}))
+		}
+		return mkStr("")
+	}
+	// from_code(to_code(x)) = x for a one-byte x
+	if i.Op == "str.to_code" {
+		x := i.Args[0]
+		if x.Op == "str.substr" && x.Args[2].IsConst() && x.Args[2].Int64() == 1 {
+			return x
+		}
+	}
+	return mkApp("str.from_code", SStr, i)
+}
